@@ -35,8 +35,10 @@ Section Walk.
     assert (H1 : forall o, nd (exclude_metric_name (set_operation (parse_aggregation1 s w g) o) w g)).
     { intros o. apply nd_exclude_metric_name. exact (nd_parse_aggregation1 s w g H). }
     destruct op; try apply H1.
-    apply nd_exclude_metric_name. apply nd_guarantee. apply nd_include.
-    exact (nd_parse_aggregation1 s w g H).
+    assert (H2 : nd (guarantee_label (include_label (set_operation (parse_aggregation1 s w g) "count_values")
+                                                    [str_of_expr p]) [str_of_expr p])).
+    { apply nd_guarantee. apply nd_include. exact (nd_parse_aggregation1 s w g H). }
+    destruct (w || negb (String.eqb (str_of_expr p) metric_name)); [apply nd_exclude_metric_name|]; exact H2.
   Qed.
 
   Lemma nd_fold_absent names : forall s, nd s ->
